@@ -1063,7 +1063,7 @@ def r10_7(prog: Program, rep: Report):
     # ... and "the module of the callable" is, for a class, the module its constructor was written in: an inherited __init__
     # need not live in the module of the class (wrap() binds the function itself; unmarshal() reads the hints from it)
     obj = ("param", f.params[0])
-    n_ref, by_class = 0, []
+    n_ref, by_class, by_instance = 0, [], []
     for p in P.splice_helpers(prog, P.paths_of(prog, f)):
         atoms = T.derive_atoms(p.guards())
         not_class = any((not val) and T.is_call_to(a, "inspect.isclass") and a[2][:1] == (obj,) for a, val in atoms)
@@ -1077,8 +1077,16 @@ def r10_7(prog: Program, rep: Report):
                     ctor = T.contains(m, lambda y: (y[0] == "attr" and y[2] in ("__init__", "__new__")) or (T.is_call_to(y, "builtins.getattr") and len(y[2]) >= 2 and y[2][1] in (("const", "__init__"), ("const", "__new__"))))
                     if not ctor and not not_class and T.contains(m, lambda y: y == obj):
                         by_class.append(T.show(m)[:60])
+                    # ... and for an instance that is called through its class's __call__, the module of that method
+                    is_class = any(val and T.is_call_to(a, "inspect.isclass") and a[2][:1] == (obj,) for a, val in atoms)
+                    is_routine = any(val and T.is_call_to(a, "inspect.isroutine", "inspect.isfunction", "inspect.ismethod") and a[2][:1] == (obj,) for a, val in atoms)
+                    via_call = T.contains(m, lambda y: (y[0] == "attr" and y[2] == "__call__") or (T.is_call_to(y, "builtins.getattr") and len(y[2]) >= 2 and y[2][1] == ("const", "__call__")))
+                    if not is_class and not is_routine and not via_call and T.contains(m, lambda y: y == obj):
+                        by_instance.append(T.show(m)[:60])
     if n_ref:
         rep.check(not by_class, "R10.7", f.qualname, f.loc, "for a class the string annotations belong to the module of its constructor", f"the module for a string annotation is read from the callable itself ({by_class[:1]}) also when it is a class: a class that inherits an annotated __init__ from a base in another module has 'Money' looked up in its own module -- bind(Savings) converts with the wrong class (or NameError) where wrap(Savings) and unmarshal(Savings, ...) use the base's", detail="string-annotation-carrier")
+    if n_ref:
+        rep.check(not by_instance, "R10.7", f.qualname, f.loc, "for a callable instance the string annotations belong to the module of its class's __call__", f"the module for a string annotation is read from the object itself ({by_instance[:1]}) also when it is an instance called through an inherited __call__: the names are looked up in the module of the instance's class, not in the one the method was written in -- bind(Sub()) raises NameError or converts with another module's class", detail="string-annotation-carrier-call")
     if not n:
         rep.undecided("R10.7", f.qualname, f.loc, "no routine is built from a parameter's annotation", detail="string-annotation")
         return
